@@ -616,7 +616,47 @@ def r10(ctx):
         raise AnalysisBroken('C07.R10: no float conversion found in the field input parsers')
 
 
+def r11(ctx):
+    ctx.rule('C07.R11', 'a value is accepted only if checkValueRange() says RESULT_OK: the function also reports a value that is not '
+             'finite with a positive code (RESULT_EMPTY), so every test of its result is a comparison for (in)equality with '
+             'RESULT_OK - an order comparison (ret < RESULT_OK) lets NaN and infinity pass and puts the replacement value on '
+             'the bus', minimum=8)
+    import re
+    fb = ctx.fb
+    cvr = fb.fn('ebusd::NumberDataType::checkValueRange')
+    ctx.touch(cvr)
+    rets = set(cvr.val(cvr.nodes[r]['val']) for r in cvr.all('ReturnStmt') if cvr.nodes[r].get('val') is not None)
+    positive = sorted(v for v in rets if v is not None and v > 0)
+    n = 0
+    seen = set()
+    for fn in fb.functions:
+        if not fn.relfile.startswith('src/lib/ebus/') or not fn.blocks or (fn.name, fn.sig) in seen:
+            continue
+        seen.add((fn.name, fn.sig))
+        for c in fn.calls('ebusd::NumberDataType::checkValueRange', suffix=False):
+            res = [d for nid, d, rhs, op, lhs in fn.assignments() if rhs is not None and fn.strip(rhs, casts=True) == c and d]
+            nm = res[0].split(':')[-1] if res else None
+            tests = set()
+            for b in fn.blocks.values():
+                if b.cond is None or len(b.succs) != 2:
+                    continue
+                for conj in facts.implied(fn, fn.effective_cond(b.id), True):
+                    for a in conj:
+                        k, p = facts.atom_key(fn, a)
+                        if (nm and re.search(r'(?<![\w.])%s(?![\w(])' % re.escape(nm), k)) or (not nm and 'checkValueRange(' in k and k.startswith('(this.checkValueRange') and fn.key(c) in k):
+                            tests.add(k)
+            n += 1
+            ctx.touch(fn)
+            order = sorted(k for k in tests if re.search(r' (<|<=) #-?\d+\)$', k))
+            ok = bool(tests) and not order or not positive
+            ctx.ob('C07.R11', fn, c, ok, 'result of checkValueRange in %s' % fn.name.split('::')[-1],
+                   'tested by %s; positive codes it can return: %s' % (sorted(tests)[:4], positive))
+    if n < 8:
+        raise AnalysisBroken('C07.R11: only %d calls of checkValueRange found' % n)
+
+
 def run(ctx):
+    r11(ctx)
     r10(ctx)
     r9(ctx)
     r8(ctx)
